@@ -63,6 +63,7 @@ VAR_OF = {
 # pointer-valued members: loading them yields a pointer into this object
 POINTER_FIELD = {
     ("vbi", ("cc", "curr_sp")): ("vbi", ("cc", "sub_packet")),
+    ("vbi", ("cc", "channel", "line")): ("vbi", ("cc", "channel")),     # cc_channel.line points into ch->pg[].text
     ("rd", ("pattern",)): ("rd3", ()),
     ("vbi", ("handlers",)): ("ehnode", ()), ("vbi", ("next_handler",)): ("ehnode", ()),
     ("ehnode", ("next",)): ("ehnode", ()),
@@ -380,6 +381,13 @@ class Gen:
         self.sites = []          # list of chains (tuples of fn ids)
         self.site_ix = {}
         self.warnings = []
+        # per C function (not inlined): what its own text does, for the GIMPLE cross-check
+        # (translate/locks_gimple_xcheck.py): lock calls in source order, shared fields written,
+        # callouts, direct calls into the scope files
+        self.perfn = {}
+
+    def rec(self, fn):
+        return self.perfn.setdefault(fn, {"locks": [], "writes": set(), "callouts": set(), "calls": set(), "file": None})
 
     def fid(self, name):
         if name not in self.fn_ids:
@@ -689,11 +697,15 @@ class Builder:
         env = ctx["env"]
         G = self.graph
         kind = ef[0]
+        rec = self.g.rec(env.fn)
         if kind in ("read", "write"):
+            if kind == "write":
+                rec["writes"].add(ef[1])
             nxt = G.node()
             G.edge(cur, ("acc", ef[1], kind == "write", self.g.site(env.chain)), nxt)
             return nxt
         if kind == "callout":
+            rec["callouts"].add(ef[1])
             nxt = G.node()
             G.edge(cur, ("callout", self.g.site(env.chain)), nxt)
             return nxt
@@ -703,6 +715,9 @@ class Builder:
             m = MUTEX_LOC.get((loc[0], tuple(loc[1]))) if loc else None
             if m is None:
                 sys.exit("gen_locks: cannot identify mutex in %s:%d (%s)" % (env.fn, line, " ".join(t[0] for t in args[0])))
+            item = [line, fname[len("pthread_mutex_"):], m]
+            if item not in rec["locks"]:
+                rec["locks"].append(item)
             nxt = G.node()
             if fname.endswith("trylock"):
                 G.edge(cur, ("tryOk", m), nxt)
@@ -711,6 +726,8 @@ class Builder:
                 G.edge(cur, ("lock" if fname.endswith("_lock") else "unlock", m), nxt)
             return nxt
         arg_locs = [self.g.eval_ptr(a, env) for a in args]
+        if fname in self.g.funcs or fname in self.g.summary:
+            rec["calls"].add(fname)
         if fname in self.g.funcs:
             f = self.g.funcs[fname]
             for (sn, sentry, sexit) in ctx["stack"]:
@@ -744,6 +761,8 @@ class Builder:
             else:
                 vs = [v]
             for v in vs:
+                if w:
+                    rec["writes"].add(v)
                 nxt = G.node()
                 G.edge(cur, ("acc", v, w, self.g.site(env.chain + (fname,))), nxt)
                 cur = nxt
@@ -1163,6 +1182,9 @@ def main():
     side = {"mutexes": MUTEXES, "vars": VARS, "fns": fnames, "sites": [list(c) for c in gen.sites],
             "roles": [[r, m, f] for r, m, f in ROLES], "source_sha256": src_hash.hexdigest(), "input_sha256": ih,
             "warnings": sorted(set(gen.warnings)),
+            "per_function": {k: {"file": gen.funcs[k].file if k in gen.funcs else None, "locks": v["locks"],
+                                 "writes": sorted(v["writes"]), "callouts": sorted(v["callouts"]), "calls": sorted(v["calls"])}
+                             for k, v in sorted(gen.perfn.items())},
             "table": {k: {"nodes": v["n"], "edges": len(v["edges"]), "problems": v["problems"][:20],
                           "actions": sorted({("%s %s" % (e[1][0], e[1][1])) if e[1][0] != "acc" else
                                              "%s %s" % ("W" if e[1][2] else "R", e[1][1]) for e in v["edges"] if e[1][0] != "tau"})}
